@@ -165,8 +165,8 @@ Proof.
     replace ((255 =? 255) && (i =? -1)) with false by (destruct (Z.eqb_spec i (-1)); [lia|reflexivity]).
     destruct (Z.ltb_spec i 0); [lia|]. destruct (Z.geb_spec i (dev_count (rn r1))); [destruct Hbus1 as (_ & _ & X & _); lia|]. cbn [orb].
     destruct (rsend_answer r1 (claim_msg (get_dev (rn r1) i) 255) i Hbus1 Hdrv1 eq_refl) as (r' & ans & E & Er & S & Q & Hans);
-      try (cbn [claim_msg m_pri m_pgn m_dst m_data]; unfold c_N2kPGNIsoAddressClaim; try lia; try reflexivity).
-    { unfold le_bytes. rewrite map_length, seq_length. lia. }
+      try (cbn [claim_msg m_pri m_pgn m_dst m_data]; unfold c_N2kPGNIsoAddressClaim;
+           first [lia | reflexivity | (unfold le_bytes; rewrite map_length, seq_length; lia)]).
     unfold rsend in E. destruct (send_msg (rn r1) (claim_msg (get_dev (rn r1) i) 255) i) as [[n' ev] ok]. injection E as E1 E2 E3. subst r' ev ok.
     exists ans. split; [change (rn r1) with n1; rewrite Hpend; reflexivity|]. split; [exact Q|]. split; [|split; [discriminate|split; discriminate]].
     intros _. cbn [claim_msg m_pri m_pgn m_dst m_data m_len] in Hans. unfold c_N2kPGNIsoAddressClaim in Hans.
@@ -180,23 +180,22 @@ Proof.
     destruct iso_answers_match_reference as (_ & _ & RL & RM & _).
     destruct (RM r1 i requester 0 def_transmit_messages (d_tx (get_dev (rn r1) i))) as (M1 & M2 & M3 & M4). fold m1 in M1, M2, M3, M4.
     destruct (rsend_answer r1 m1 i Hbus1 Hdrv1 eq_refl) as (r2 & ans1 & E1 & Er1 & S2 & Q2' & Hans1);
-      try (rewrite ?M1, ?M2, ?M3; try lia; try reflexivity).
-    { exact M4. }
+      try (rewrite ?M1, ?M2, ?M3; first [exact M4 | lia | reflexivity]).
     rewrite E1.
     assert (Hbus2: on_bus (rn r2) i) by (apply (on_bus_nsim _ _ _ S2), Hbus1).
     destruct (quiet_pending _ Q2') as (Hp2 & Hdrv2).
     set (m2 := pgn_list_msg r2 i requester 1 def_receive_messages (x_rx (get_devx r2 i))).
     destruct (RM r2 i requester 1 def_receive_messages (x_rx (get_devx r2 i))) as (N1 & N2 & N3 & N4). fold m2 in N1, N2, N3, N4.
     destruct (rsend_answer r2 m2 i Hbus2 Hdrv2 eq_refl) as (r3 & ans2 & E2 & Er2 & S3 & Q3 & Hans2);
-      try (rewrite ?N1, ?N2, ?N3; try lia; try reflexivity).
-    { exact N4. }
+      try (rewrite ?N1, ?N2, ?N3; first [exact N4 | lia | reflexivity]).
     rewrite E2. rewrite Hp2. cbn [app].
     exists (ans1 ++ ans2). split; [change (rn r1) with n1; rewrite Hpend, app_assoc; reflexivity|]. split; [exact Q3|].
     split; [discriminate|]. split; [|split; discriminate].
     intros _. exists ans1, ans2. split; [reflexivity|].
     rewrite M1, M2, M3 in Hans1. rewrite N1, N2, N3 in Hans2.
     replace (6 >=? 128) with false in Hans1, Hans2 by reflexivity.
-    rewrite (fp_always _ 126464 eq_refl ltac:(lia)), andb_false_r in Hans1, Hans2.
+    rewrite (fp_always _ 126464 eq_refl ltac:(lia)), andb_false_r in Hans1.
+    rewrite (fp_always _ 126464 eq_refl ltac:(lia)), andb_false_r in Hans2.
     destruct (RL r1 i requester) as [RL1 _]. fold m1 in RL1. rewrite RL1 in Hans1.
     destruct (RL r2 i requester) as [_ RL2]. fold m2 in RL2. rewrite RL2 in Hans2.
     assert (T1: ref_tx_list r1 i = ref_tx_list r i) by (unfold ref_tx_list; cbn [r1 with_rn rn]; rewrite (ns_tx _ _ S1); reflexivity).
@@ -209,8 +208,7 @@ Proof.
     rewrite (chk_dev_ok r1 i) by (destruct Hbus1 as (_ & _ & X & _); exact X).
     set (m := {| m_pri := 6; m_pgn := 126996; m_src := dev_src r1 i; m_dst := 255; m_data := c_prodinfo (r_cfg r1); m_tp := false |}).
     destruct (rsend_answer r1 m i Hbus1 Hdrv1 eq_refl) as (r2 & ans & E & Er & S2 & Q & Hans);
-      try (cbn [m m_pri m_pgn m_dst m_data]; try lia; try reflexivity; try discriminate).
-    { exact Hfit1. }
+      try (cbn [m m_pri m_pgn m_dst m_data]; first [exact Hfit1 | lia | reflexivity | discriminate]).
     rewrite E.
     assert (Hi2: 0 <= i < dev_count (rn r2)) by (rewrite (ns_count _ _ S2); destruct Hbus1 as (_ & _ & X & _); exact X).
     unfold set_pending. rewrite (chk_dev_ok r2 i Hi2).
@@ -229,8 +227,7 @@ Proof.
     rewrite (chk_dev_ok r1 i) by (destruct Hbus1 as (_ & _ & X & _); exact X).
     set (m := {| m_pri := 6; m_pgn := 126998; m_src := dev_src r1 i; m_dst := 255; m_data := c_confinfo (r_cfg r1); m_tp := false |}).
     destruct (rsend_answer r1 m i Hbus1 Hdrv1 eq_refl) as (r2 & ans & E & Er & S2 & Q & Hans);
-      try (cbn [m m_pri m_pgn m_dst m_data]; try lia; try reflexivity; try discriminate).
-    { exact Hfit2. }
+      try (cbn [m m_pri m_pgn m_dst m_data]; first [exact Hfit2 | lia | reflexivity | discriminate]).
     rewrite E.
     assert (Hi2: 0 <= i < dev_count (rn r2)) by (rewrite (ns_count _ _ S2); destruct Hbus1 as (_ & _ & X & _); exact X).
     unfold set_pending. rewrite (chk_dev_ok r2 i Hi2).
